@@ -26,7 +26,18 @@ static ref::LD scaleOf(const MonG& X, const MonG& Y, const MonG& Z) { Scale s; a
 static MonG makeElement(Prng& r, std::string& label, bool viaExp) {
   const ref::Group& g = RG();
   GenOpt o; o.thetaMax = 3.14159265358979323846; o.nearPiMin = 0; o.linMax = 1e6; o.exactCoeff = 0.03;
-  if (!viaExp) return groupFrom<MonG>(genElement<MonS>(g, r, o, label));
+  if (!viaExp) {
+    std::vector<MonS> c = genElement<MonS>(g, r, o, label);
+    // valid elements are those the library accepts: in double, a few per cent of the operands get rotation data whose norm is off by
+    // 0.45 eps (inside the acceptance band |norm-1| < eps), so that products leave the band and the renormalisation branch of compose
+    // is taken, in both hemispheres; the 4e-14 this adds to the matrices is inside the 1e-13 tolerance
+    if (sizeof(MonS) == 8 && r.coin(0.06)) {
+      const double f = 1 + r.sign() * 0.45 * (double)manif::Constants<MonS>::eps;
+      for (int b = 0; b < g.nb(); ++b) { const ref::Elem& e = g.el[b]; int nq = e.rot == 3 ? 4 : e.rot == 2 ? 2 : 0; for (int k = 0; k < nq; ++k) c[g.repOff[b] + e.rotCoef + k] = (MonS)((double)c[g.repOff[b] + e.rotCoef + k] * f); }
+      label += "/offnorm";
+    }
+    return groupFrom<MonG>(c);
+  }
   o.beyondPi = true; o.thetaMax = 7;
   MonG X = tangentFrom<MonT>(genTangent<MonS>(g, r, o, label)).exp();
   label = "exp:" + label;
